@@ -69,12 +69,22 @@ BinsFails(ev) ==
          (* differently (more in the tails): 1e-5 absolute + 0.1 %                                                            *)
          IF \E k \in ks : ~FWithin(Binned(k), Off(k), FAdd(Micro(10), FDivE4(FMulInt(Binned(k), 10)))) THEN {"neutron_view_is_not_the_binned_mass_view"} ELSE {}
 
-(* k = "merge": merge_isotopic_distributions(d1, d2) adds abundances at equal masses (dyadic abundances: exact) *)
+(* k = "merge": merge_isotopic_distributions(d1, d2, precision) rounds every mass to `precision` decimals (ev.prec, *)
+(* -1 = None; ties to even, the masses are dyadic so ties are exact) and adds abundances at equal masses             *)
+RoundMassTo(m, p) ==
+    IF p < 0 THEN m
+    ELSE LET unit == P10(9 - p)
+             r == m[2] % unit
+             q == IF p = 0 THEN m[1] ELSE m[2] \div unit
+             up == 2 * r > unit \/ (2 * r = unit /\ q % 2 = 1)
+             fp2 == m[2] - r + (IF up THEN unit ELSE 0) IN
+         IF fp2 >= P10(9) THEN <<m[1] + 1, fp2 - P10(9)>> ELSE <<m[1], fp2>>
 MergeFails(ev) ==
     IF ev.out # "ret" THEN {"raised_" \o ev.out}
     ELSE LET all == ev.d1 \o ev.d2
-             masses == { all[q].m : q \in 1..Len(all) }
-             Want(m) == FSum([ q \in 1..Len(all) |-> IF all[q].m = m THEN AFix(all[q].a) ELSE FZero ]) IN
+             M(q) == RoundMassTo(all[q].m, ev.prec)
+             masses == { M(q) : q \in 1..Len(all) }
+             Want(m) == FSum([ q \in 1..Len(all) |-> IF M(q) = m THEN AFix(all[q].a) ELSE FZero ]) IN
          (IF { ev.res[q].m : q \in 1..Len(ev.res) } # masses THEN {"merged_masses"} ELSE {})
          \cup (IF Len(ev.res) # Cardinality(masses) THEN {"merged_mass_repeated"} ELSE {})
          \cup (IF \E q \in 1..Len(ev.res) : ev.res[q].m \in masses /\ AFix(ev.res[q].a) # Want(ev.res[q].m) THEN {"merged_abundance_is_not_the_sum"} ELSE {})
